@@ -280,9 +280,15 @@ func extractZip(zipFile, dest string) error {
 	defer r.Close()
 	decompress := func(file *zip.File) error {
 		path := filepath.Join(dest, file.Name)
+		if cleanDest := filepath.Clean(dest); path != cleanDest && !strings.HasPrefix(path, cleanDest+string(os.PathSeparator)) {
+			return fmt.Errorf("%s: illegal file path", path)
+		}
 
 		if file.FileInfo().IsDir() {
 			return os.MkdirAll(path, 0700)
+		}
+		if err := os.MkdirAll(filepath.Dir(path), 0700); err != nil {
+			return err
 		}
 
 		fs, err := file.Open()
